@@ -304,6 +304,13 @@ def rule_placement(ctx, R, NR, BR, rules=None):
             ctx.check(oks, "KNOB-SAN2", b, "final-sanitise:" + tag, b.loc(sans[0]["bb"]) if sans else b.span,
                       "before returning, every block of helper.active_block_range() must be sanitised")
             if oks:
+                rp_ = [s_ for s_ in S.keyed(lambda k: core.callee_base(k) == ITER_NEXT) if m(C(endswith("::active_block_range"), ANY), s_["args"][0])]
+                if len(rp_) == 1:
+                    sw_ = switches_on(root, lambda d: d[0] == "discr" and d[1][0] == "call" and d[1][3] == (b.path, rp_[0]["bb"]))
+                    if len(sw_) == 1:
+                        some_ = opt_arms(sw_[0][1])[0]
+                        ctx.check(rp_[0]["bb"] not in (b.reach(some_, avoid_blocks=[sans[0]["bb"]]) - {some_} if some_ != sans[0]["bb"] else set()), "KNOB-SAN2", b,
+                                  "every-active-block-sanitised:" + tag, b.loc(sans[0]["bb"]), "EVERY active block is sanitised at the end (no block skipped)")
                 # every Ok exit is behind the sanitising loop's exhaustion
                 okx = [(bi, si) for bi, si, st in b.stmts() if st["k"] == "assign" and st["lhs"]["local"] == 0 and
                        st["rv"]["k"] == "aggregate" and st["rv"].get("variant") == "Ok"]
@@ -617,6 +624,11 @@ def rule_sanitiser(ctx, R, NR, BR):
             tt, ff = bool_arms(sw[0][1])
             # used (true) arm must not reach set_check within the iteration
             okg = sc[0]["bb"] not in b.reach(tt, avoid_blocks=[pulls[0]["bb"]]) and sc[0]["bb"] in b.reach(ff, avoid_blocks=[pulls[0]["bb"]])
+    if okg and sc:
+        tt_, ff_ = bool_arms(sw[0][1])
+        okg2 = pulls[0]["bb"] not in (b.reach(ff_, avoid_blocks=[sc[0]["bb"]]) - {ff_} if ff_ != sc[0]["bb"] else set())
+        ctx.check(okg2, "KNOB-SAN3", b, "every-vacant-slot-stamped", b.span,
+                  "EVERY vacant slot unused_base ^ c gets CHECK := c (no further condition may let one keep its default CHECK)")
     ctx.check(okg, "KNOB-SAN3", b, "only-vacant-or-reserved", b.span,
               "only vacant slots (or the reserved ROOT/DEAD slots) may be overwritten: a used slot's CHECK must be kept")
     # reserved slots: Eq(idx, ROOT) / Eq(idx, DEAD) arms lead to set_check
